@@ -81,17 +81,18 @@ def gen_problem(rng, t):
         p.circprops.append(dict(name="cfloat", V=0.0, q=rng.choice([1e-9, -5e-10, 0.0]), type=0))
         p.add_node(0.25, 0.25, cond=len(p.circprops) - 1)
     add_external_region(p, rng)
+    p.src_on_fixed = gen.point_source_on_constrained(p, rng)
     return p
 
 
 def add_external_region(p, rng):
     """axisymmetric problems: every third one has an EXTERNAL region (Kelvin-transformed exterior: [extZo] [extRo] [extRi] and a block label
-    flagged external).  The whole assembly of such a problem is compared with the Lean model; the SI oracle of stage P does not re-derive the
-    transformation and skips it."""
+    flagged external).  The whole assembly of such a problem is compared with the Lean model, and the SI oracle of stage P scales the material
+    constant of the external elements by Ri*Ro/|centroid-(0,Zo)|^2 itself (fem_oracle.Mesh.kelvin), from the values in the drawing's own units."""
     p.has_ext = False
-    if p.ptype == "axi" and len(p.labels) > 1 and rng.random() < 0.34:
+    if p.ptype == "axi" and len(p.labels) > 1 and rng.random() < 0.5:
         W = max(n["x"] for n in p.nodes)
-        p.ext = (rng.choice([0.0, 1.5]), rng.choice([2.0 * W, 20.0]), rng.choice([W, 8.0]))
+        p.ext = (rng.choice([1.5, -0.75, 0.0, 3.0]), rng.choice([2.0 * W, 20.0]), rng.choice([W, 8.0]))
         rng.choice(p.labels[1:])["ext"] = 1
         p.has_ext = True
 
@@ -102,7 +103,7 @@ def main(argv):
                       "permittivity; volume / surface / point charges; BC types 0-2; conductors of both kinds incl. floating "
                       "conductors adjacent to prescribed nodes) meshed by the real fmesher and solved by the real esolver; "
                       "non-trivial = at least one free node and one source or non-zero prescribed value; distinct by problem signature")
-    ck.assumptions += ["problems with an external (Kelvin-transformed) region are decided by the bit-for-bit assembly tie and the hook residual; the SI oracle does not re-derive the transformation",
+    ck.assumptions += ["in an external (Kelvin-transformed) region the oracle scales the permittivity per element at the centroid (the discretisation the solver documents) and, like the solver, leaves volume charge unscaled",
                        "solver accuracy is observed (hook log, oracle residual at Precision 1e-10), not proved",
                        "the oracle assigns boundary conditions geometrically (1e-9 relative tolerance)"]
     ck.run_stage_a()
@@ -183,7 +184,8 @@ def main(argv):
                 continue
             if getattr(p, "has_ext", False):
                 stats["external_region_problems"] = stats.get("external_region_problems", 0) + 1
-                continue
+            if getattr(p, "src_on_fixed", False):
+                stats["point_source_on_constrained_node"] = stats.get("point_source_on_constrained_node", 0) + 1
             mesh = fem_oracle.Mesh(p, sol)
             if (mesh.area <= 0).any():
                 ck.violation("renumbering", "the solution file contains a non-positive element", dict(files=run.files()))
